@@ -303,7 +303,7 @@ def run(prog, ctx):
                 alloc = C.find_sub(tab, lambda t: t[0] == "call" and t[1].endswith("from_elem"))
                 if alloc is not None:
                     want = C.shl_one_amount(alloc[2][1])
-                elif sym.contains(tab, lambda t: t[0] == "field" and t[2] == "entries"):
+                elif sym.contains(tab, lambda t: t[0] == "field" and t[2] == "entries") and "lg_cur_size" in [x[0] for v in prog.adts.get(T, {}).get("variants", []) for x in v.get("fields", [])]:
                     want = ("field", ("param", 1, "self"), "lg_cur_size")
                 if want is None:
                     res.undecided += 1
@@ -394,7 +394,15 @@ def run(prog, ctx):
         mutable = set(fld for (f, b, kind, place, rv, span, adt, fld) in sym.field_stores(prog, adt=T, fns=tfns) if kind != "agg" and f.item_name not in ("new", "reset"))
         missing = mutable - written - {"entries"}
         fills = any((site.get("callee") or "").endswith("::fill") for _, site in rs.calls())
-        if not missing and fills:
+        # the old entries must be cleared on every path (fill, or a fresh vector assigned to the field); a bare resize() keeps
+        # the surviving prefix
+        srs = Sym(prog, rs, ifconv=False)
+        clear_blocks = set(b for b, site in rs.calls() if (site.get("callee") or "").endswith("::fill"))
+        for (f_, b_, kind, place, rv, span, adt, fld) in sym.field_stores(prog, adt=T, field="entries", fns=[rs]):
+            clear_blocks.add(b_)
+        if not missing and fills and srs.reaches_exit_avoiding(0, clear_blocks):
+            res.violate("C04.T", "C04.T|reset|clear", "a path through reset() returns without clearing the retained entries (fill / re-allocation is skipped on it)", rs.id)
+        elif not missing and fills:
             res.discharged += 1
         elif not missing:
             res.undecided += 1      # entries cleared by something other than fill()
